@@ -124,14 +124,15 @@ pub fn window_weights(win: &Window, len: usize) -> Vec<f32> {
     }
 }
 
-/// Quantizes and fingerprints the window function for caching.
+/// Fingerprints the window function for caching.
 fn fingerprint_window(w: &Window) -> u64 {
     match *w {
         Window::Rectangle => 0x01_00_00_00_00_00_00_00u64,
         Window::Tukey { alpha } => {
-            let qalpha = (alpha * 65535.0) as u64;
-            assert!(qalpha < 65536, "alpha is larger than 1");
-            0x02_00_00_00_00_00_00_00u64 + qalpha
+            assert!(!(alpha > 1.0), "alpha is larger than 1");
+            // Use the exact bit pattern: two different alphas (however close)
+            // must never share a cached window.
+            0x02_00_00_00_00_00_00_00u64 + u64::from(alpha.to_bits())
         }
     }
 }
